@@ -47,7 +47,7 @@ def run(idx, rep, tier):
     r1(idx, rep)
     r2(idx, rep)
     coercions(idx, rep)
-    r3(idx, rep)
+    r3(idx, rep, tier)
     r4(idx, rep)
     r5(idx, rep)
     r6(idx, rep)
@@ -257,8 +257,8 @@ def coercions(idx, rep, rid="R2"):
 
 
 # ------------------------------------------------------------------------------------------ R3
-def r3(idx, rep):
-    fi, rows = MM.run_model(idx, max_components=3, with_memo=True)
+def r3(idx, rep, tier="quick"):
+    fi, rows = MM.run_model(idx, max_components=5 if tier == "thorough" else 3, with_memo=True)
     rep.analysed(fi)
     bad = {}
     for row in rows:
